@@ -209,6 +209,37 @@ func runSeq(c seqCase, clk *vclock.Clock) []obsT {
 	res := "c10-" + strconv.Itoa(c.ID)
 	rule := &flow.Rule{Resource: res, TokenCalculateStrategy: flow.Direct, ControlBehavior: flow.Throttling,
 		Threshold: float64(c.T), MaxQueueingTimeMs: c.TimeoutMs, StatIntervalInMs: c.StatMs}
+	// Two cases in three start from a reload: a sibling rule that differs in exactly one field is in
+	// force first and has admitted a request (so its controller holds a pass time); the case's rule
+	// then replaces it.  A changed rule gets a fresh controller, so the model (fresh state, the case's
+	// own parameters) is unchanged - a reload that kept the stale controller or its parameters shows.
+	if len(c.Ops) > 0 && c.ID%3 != 0 && !math.IsNaN(float64(c.T)) {
+		sib := *rule
+		switch c.ID % 3 {
+		case 1:
+			if sib.MaxQueueingTimeMs >= 1000 {
+				sib.MaxQueueingTimeMs = 0
+			} else {
+				sib.MaxQueueingTimeMs += 5000
+			}
+		case 2:
+			if c.ID%2 == 0 {
+				sib.Threshold = sib.Threshold*2 + 1
+			} else if sib.StatIntervalInMs >= 2000 {
+				sib.StatIntervalInMs = 1000
+			} else {
+				sib.StatIntervalInMs += 3000
+			}
+		}
+		if _, err := flow.LoadRules([]*flow.Rule{&sib}); err != nil {
+			panic(err)
+		}
+		clk.SetNs(c.Ops[0].Ns)
+		if e, _ := sentinel.Entry(res); e != nil {
+			e.Exit()
+		}
+		clk.TakeSleeps()
+	}
 	if _, err := flow.LoadRules([]*flow.Rule{rule}); err != nil {
 		panic(err)
 	}
